@@ -20,6 +20,7 @@ def run(ctx):
     st_cluster.run_stage(ctx, PREFIXES, [("fraction", n // 2), ("mixed", n // 4), ("sharers", n // 4)])
     # whole-GPU nominations of one cycle on top of each other (victims moved by one statement, taken again by the next)
     st_cluster.run_stage(ctx, ["C02_NominationFits", "C02_Exclusive"], [("abandon", n // 2)], tag="-abandon")
+    st_cluster.run_directed(ctx, ["C02_NominationFits"], "C02")
     if os.path.exists(os.path.join(os.path.dirname(__file__), "st_nodeacct.READY")):
         import st_nodeacct
         st_nodeacct.run_stage(ctx, ["C02_"])
